@@ -944,6 +944,32 @@ def normalize_module (tree, modname, stats=None):
   if inv is not None:
     il = Inliner(tree, inv)
     il.run(); info['inlined'] = il.inlined
+    # a new helper all of whose uses in this module were inlined is no longer a unit of its own
+    used = set(h for _, h in il.inlined)
+    def still_referenced (name, helper):
+      for n in ast.walk(tree):
+        if n is helper: continue
+        if isinstance(n, ast.Attribute) and n.attr == name: return True
+        if isinstance(n, ast.Name) and n.id == name and isinstance(n.ctx, ast.Load): return True
+        if isinstance(n, ast.Constant) and n.value == name: return True
+      return False
+    def inside (helper):
+      return set(id(x) for x in ast.walk(helper))
+    def prune (body):
+      out = []
+      for s_ in body:
+        if isinstance(s_, ast.ClassDef): s_.body = prune(s_.body) or [ast.Pass()]
+        if isinstance(s_, FUNC) and s_.name in used and any(v is s_ for v in il.helpers.values()):
+          ids = inside(s_)
+          ref = False
+          for n in ast.walk(tree):
+            if id(n) in ids: continue
+            if (isinstance(n, ast.Attribute) and n.attr == s_.name) or (isinstance(n, ast.Name) and n.id == s_.name and isinstance(n.ctx, ast.Load)): ref = True; break
+          if not ref:
+            info.setdefault('dropped', []).append(s_.name); continue
+        out.append(s_)
+      return out
+    tree.body = prune(tree.body)
     def visit (body, prefix):
       for s in body:
         if isinstance(s, FUNC):
